@@ -228,3 +228,91 @@ def run_case(seed, workdir, n_rounds=60):
     check()
     Sim.uninstall()
     return problems, stats
+
+def run_scripted(workdir):
+    """one scripted history next to the random ones: a node takes a snapshot of its own, falls behind, installs the
+    leader's snapshot (battery contents change WITHOUT a replicated call on that node), sees further commands that do
+    not touch some of the batteries, takes a snapshot again and is restarted from that dump: every battery comes back
+    as the other replicas hold it (seed C15-r7: a consumer's pickled state kept until its next replicated call)."""
+    cfg = dict(voters=[1, 2, 3], ro=[], period=10, tmin=40, tspan=128, fallback=100000, batch=65536, chunk=65536,
+               use_batch=True, dyn=False, wait_leader=True, queue=1000, min_entries=10 ** 9, min_time=10 ** 9,
+               dump='file', journal='file')
+    sim = Sim(cfg, workdir)
+    sim.App = make_app()
+    clock = {1: 0, 2: 0, 3: 0}
+    problems = []
+
+    def start(n):
+        clock[n] += 1
+        sim.apply(('restart', n, [x for x in (1, 2, 3) if x != n], clock[n], 7 * n))
+
+    def link(a, b, up=True):
+        for x, y in ((a, b), (b, a)):
+            if x in sim.nodes and y in sim.nodes:
+                if up and y not in sim.tr(x).connected:
+                    sim.apply(('connect', x, y))
+                if not up and y in sim.tr(x).connected:
+                    sim.apply(('drop', x, y))
+
+    def rounds(k=3, nodes=None, dt=11):
+        for _ in range(k):
+            for n in (nodes or sorted(sim.nodes)):
+                clock[n] += dt
+                sim.apply(('tick', n, clock[n], 3, None))
+            for _ in range(30):
+                moved = False
+                for (a, b), q in sorted(sim.chan.items()):
+                    while q and b in sim.nodes and a in sim.tr(b).connected:
+                        sim.apply(('deliver', a, b, clock[b], 3))
+                        moved = True
+                if not moved:
+                    break
+    for n in (1, 2, 3):
+        start(n)
+    for a, b in ((1, 2), (1, 3), (2, 3)):
+        link(a, b)
+    clock[1] += 40 + 128 + 1
+    sim.apply(('tick', 1, clock[1], 3, None))
+    rounds(4)
+    L = [n for n, o in sim.nodes.items() if o._SyncObj__raftState == 2]
+    if len(L) != 1:
+        Sim.uninstall()
+        return ['scripted case: no leader'], {}
+    L = L[0]
+    F = [n for n in (1, 2, 3) if n != L]
+    victim, other = F[0], F[1]
+    b = sim.nodes[L].b
+    b['dict'].set('k', 1); b['dict'].set('gone', 0); b['list'].append(1); b['set'].add(5); b['queue'].put(4)
+    rounds(3)
+    sim.apply(('compact', victim))
+    rounds(3)                                         # the victim has a dump of its own
+    link(victim, L, False); link(victim, other, False)
+    b['dict'].set('k', 2); b['dict'].pop('gone'); b['dict'].set('x', 9); b['list'].append(2); b['set'].discard(5); b['queue'].get()
+    rounds(3, nodes=[L, other])
+    sim.apply(('compact', L)); sim.apply(('compact', other))
+    rounds(3, nodes=[L, other])
+    link(victim, L); link(victim, other)
+    rounds(6)                                         # the victim installs the leader's snapshot
+    b['counter'].inc(); b['counter'].inc()            # only the counter changes afterwards
+    rounds(3)
+    sim.apply(('compact', victim))
+    rounds(3)
+    sim.apply(('kill', victim))
+    for y in sorted(sim.nodes):
+        if victim in sim.tr(y).connected:
+            sim.apply(('drop', y, victim))
+    start(victim)
+    link(victim, L); link(victim, other)
+    rounds(6)
+    ref = contents(sim.nodes[L])
+    for m in (victim, other):
+        if sim.nodes[m]._SyncObj__raftLastApplied != sim.nodes[L]._SyncObj__raftLastApplied:
+            problems.append('scripted case: node %d did not catch up' % m)
+            continue
+        c = contents(sim.nodes[m])
+        for k in ref:
+            if c[k] != ref[k]:
+                problems.append('replicas differ at applied index %d: %s on node %d is %r, on node %d %r (after snapshot install, '
+                                'second compaction and restart from the dump)' % (sim.nodes[L]._SyncObj__raftLastApplied, k, L, ref[k], m, c[k]))
+    Sim.uninstall()
+    return problems, {'scripted': 1}
